@@ -17,6 +17,20 @@ NA = {
 
 # property -> check description; filled in as units are built
 CHECKS = {
+    "C10": {
+        "category": "proof",
+        "technique": "Verus contracts (nul_once postconditions, panic-freedom obligations) on mechanically extracted constructors/path ops + bounded Kani twins on the compiled crate",
+        "text": "For every byte string (all lengths): each safe constructor, conversion and path operation returns bytes ending in exactly one NUL (no other NUL for NUL-free content) or Err, never a panic — proved by Verus on the real bodies of try_from_bytes (both), try_from_vec, From<&UnixStr>, const_null_term_validate (unix_lit!), path_join, path_join_fmt, parent_path, path_file_name, buf_strlen. from_format / try_from_str / from_str_checked are decided by Kani only (bounded length) and listed as bounded, not as proved.",
+        "note": "Trusted: repr(transparent) projection/injection identities; assumed contracts on to_vec/copied/get_unchecked/String-bytes/extend; alloc::fmt::format arbitrary; const validator's assert! modelled as divergence. Bounded parts (Kani, length <= 4) are reported separately in evidence.",
+        "design_ref": "§4.C10",
+    },
+    "C11": {
+        "category": "proof",
+        "technique": "Verus contracts against byte-string definitions (first occurrence, suffix, join_spec, last separator) on mechanically extracted functions + bounded Kani twins",
+        "text": "For all operand pairs of all lengths Verus proves on the real bodies: buf_find/find/find_buf = first occurrence index or None (incl. empty needle, needle longer than haystack, match at the very end); ends_with <=> suffix; path_join/path_join_fmt = join with exactly one separator at the boundary; parent_path/path_file_name split at the last separator; none panics or indexes out of range (get_unchecked preconditions are obligations). match_up_to/match_up_to_str are raw-pointer loops decided by Kani only (bounded, with pointer checks).",
+        "note": "Trusted: as C10. &UnixStr operands assumed nul_once. Kani twins bounded to content length <= 4.",
+        "design_ref": "§4.C11",
+    },
     "C09": {
         "category": "proof",
         "technique": "Kani function-level contract harnesses (loop-free, full register domain) on every mechanically enumerated wrapper of the compiled rusl crate, stub syscall instruction",
